@@ -258,8 +258,9 @@ Definition kv_parse (d : list (str * option str)) (kv : str) : list (str * optio
   | None => dict_set kv None d
   end.
 
-(* returns the parsed port (and whether the policy is acceptable) *)
-Definition parseStsPolicy (policy : str) (parseDuration : bool) : option Z :=
+(* returns (port, duration) -- duration 0 when it is not parsed -- or None when
+   the policy is unacceptable *)
+Definition parseStsPolicy2 (policy : str) (parseDuration : bool) : option (Z * Z) :=
   let d := fold_left kv_parse (comma_split policy) [] in
   match dict_get s_port d with
   | Some (Some v) =>
@@ -267,14 +268,16 @@ Definition parseStsPolicy (policy : str) (parseDuration : bool) : option Z :=
       | Some port =>
           if parseDuration then
             match dict_get s_duration d with
-            | Some (Some dv) => match py_int dv with Some _ => Some port | None => None end
+            | Some (Some dv) => match py_int dv with Some du => Some (port, du) | None => None end
             | _ => None
             end
-          else Some port
+          else Some (port, 0%Z)
       | None => None
       end
   | _ => None
   end.
+Definition parseStsPolicy (policy : str) (parseDuration : bool) : option Z :=
+  match parseStsPolicy2 policy parseDuration with Some (p, _) => Some p | None => None end.
 
 Definition onCapSts (c : cfg) (s : st) (policy : str) : R :=
   match parseStsPolicy policy (c_secure c) with
@@ -560,6 +563,6 @@ Definition run (v : value) : value :=
   match gN (nth_v 0 v) with
   | 0 => let '(s', o, e) := step (gCfg (nth_v 0 p)) (gState (nth_v 1 p)) (gMsg (nth_v 2 p)) in
          L [vState s'; L (map vOut (filter visible o)); vExn e]
-  | 1 => vO (fun z => I z) (parseStsPolicy (gS (nth_v 0 p)) (gB (nth_v 1 p)))
+  | 1 => vO (fun pd => L [I (fst pd); I (snd pd)]) (parseStsPolicy2 (gS (nth_v 0 p)) (gB (nth_v 1 p)))
   | _ => L []
   end.
